@@ -28,6 +28,6 @@ ASSUMPTIONS = [
 
 META = {
     "technique": "Coq proofs over an executable Q model of BatteryDistributionAlgorithm (bookkeeping invariants of greedy top-up and inverter split by induction over the component lists; sign flip for supply) + differential correspondence: the real distribute_power run on exact rationals (duck-typed records, lib.exact.X) vs the model evaluated inside Coq by vm_compute + float run vs exact run + property oracle on the implementation's output",
-    "level_text": "Machine-checked, closed under the global context: C01_sum (set-points + remainder == request exactly in Q, for EVERY data set and every pow function, request not treated as zero), C01_reported_is_commanded (request - remainder == sum of set-points, the BatteryManager step), C01_sign_partial and C01_remainder_partial (sign of every set-point; 0 <= sgn*remainder <= |request|) under the explicit run-time hypothesis side_ok. The model is tied to /repo by running the real algorithm and the model on the same generated configurations (1-4 groups x 1-3 batteries x 1-3 inverters, SoC at/over limits, zero exclusion bounds, zero inclusion bounds, equal sort keys, requests at the advertised exclusion bound / inclusion bound / midpoints / beyond, exponents 0-3 exact, non-integer exponents on floats) and comparing exactly; the three clauses are also judged directly on the implementation's output.",
-    "level_note": "Partial: sign/remainder theorems assume side_ok (decidable by evaluation, lower_okb; checked on every in-domain generated case) instead of deriving it from the admission condition -- the missing lemma is `sum of proportional shares <= request, and an uncovered deficit implies all excess exhausted`. Trusted: Coq kernel + vm_compute, the harness (generator coverage bounds the tie), lib.exact.X, the source-line tracer used only for statistics. Tolerances 1e-9 (is_close_to_zero, math.isclose) are modelled as exact rational thresholds; generated data stay away from them except where intended. The unchanged tree violated C01 (findings F1, F2: fixed by commits c773a4e, fcfd05e; witnesses in corpus/C01).",
+    "level_text": "Machine-checked, closed under the global context: C01_sum (set-points + remainder == request exactly in Q, for EVERY data set and every pow function, request not treated as zero), C01_reported_is_commanded (request - remainder == sum of set-points, the BatteryManager step), C01_sign_partial and C01_remainder_partial (sign of every set-point; 0 <= sgn*remainder <= |request|) under the explicit run-time hypothesis side_ok; C01_side_ok_when_no_deficit derives side_ok for every run without a deficit entry (no group's proportional share below its minimum power) and every pow function non-negative on non-negative arguments. The model is tied to /repo by running the real algorithm and the model on the same generated configurations (1-4 groups x 1-3 batteries x 1-3 inverters, SoC at/over limits, zero exclusion bounds, zero inclusion bounds, equal sort keys, requests at the advertised exclusion bound / inclusion bound / midpoints / beyond, exponents 0-3 exact, non-integer exponents on floats) and comparing exactly; the three clauses are also judged directly on the implementation's output.",
+    "level_note": "Partial: sign/remainder theorems assume side_ok (decidable by evaluation, lower_okb; checked on every in-domain generated case) instead of deriving it from the admission condition in general (derived for deficit-free runs). Missing: with deficits, an uncovered deficit leaves every excess <= 1e-9 but not 0, so request - assigned >= -n*1e-9 only; the general statement needs tolerance-slack versions of the lower-bound lemmas. Trusted: Coq kernel + vm_compute, the harness (generator coverage bounds the tie), lib.exact.X, the source-line tracer used only for statistics. Tolerances 1e-9 (is_close_to_zero, math.isclose) are modelled as exact rational thresholds; generated data stay away from them except where intended. The unchanged tree violated C01 (findings F1, F2: fixed by commits c773a4e, fcfd05e; witnesses in corpus/C01).",
 }
